@@ -17,6 +17,7 @@ var monitors = map[string]func(*vk.Ctx){
 	"C01":   runC01,
 	"C02":   runC02,
 	"C03":   runC03,
+	"C04":   runC04,
 	"C05":   runC05,
 	"C06":   runC06,
 	"C07":   runC07,
